@@ -34,9 +34,84 @@ def run_one(t):
         if ctx.put_rec.ret is not True or ctx.put_rec.exc is not None:
             w.violate("C02.put_accepted", f"ret={ctx.put_rec.ret} exc={ctx.put_rec.exc!r}", "")
         judge(w, ctx.reason, ctx.info.get("base_ind", 0), ctx.info.get("base_fault", 0), ctx.info.get("base_lib_excs"), ctx.info.get("base_internal", 0))
+        _eager_user_epilogue(w, t)
         return from_world(w, ctx.pop, ctx.nontrivial)
     finally:
         w.close()
+
+
+def _eager_user_epilogue(w, t) -> None:
+    """Two further transfers, back to back, by a user who hands over the next put request as soon as the handler is idle -
+    in unacknowledged mode without closure that is BEFORE the EOF PDU of the transfer that has just ended was fetched.
+    Both files must arrive; nothing may raise."""
+    from pathlib import Path
+
+    from cfdpsim.world import UNACK
+
+    cfg = w.cfg
+    if w.violations or cfg.metadata_only or not w.all_idle() or t.choose(5, "eager user epilogue") != 4:
+        return
+    a = w.a
+    h = a.handlers["src"]
+    base_lib = dict(w.lib_excs)
+    base_int = len(w.internal_errors)
+    base_ind = len(w.ind_log)
+    w.heap.clear()
+    w.pending = 0
+    w.pacing = "regular"
+    reqs = []
+    for name in ("dst/second.bin", "dst/third.bin"):
+        r = w.put_request_obj(None)
+        r.trans_mode = UNACK
+        r.closure_requested = False
+        r.dest_file = Path(name)
+        reqs.append(r)
+    rec = w.call(a, "src", "put", arg=reqs[0])
+    if rec.ret is not True or rec.exc is not None:
+        w.violate("C02.put_accepted", f"second transfer ret={rec.ret} exc={rec.exc!r}", "")
+        return
+    eager = False
+    last = rec
+    for _ in range(400):
+        if last.op == "sm" and last.post.progress >= len(w.src_bytes) and last.post.step in ("SENDING_FILE_DATA", "SENDING_METADATA"):
+            a.nodrain = True  # the EOF PDU is due: the user looks at the state before fetching what this call produced
+        last = w.poll(a, "src")
+        if a.nodrain:
+            if h.state.name == "IDLE":
+                eager = True
+                rec = w.call(a, "src", "put", arg=reqs[1])
+                if rec.ret is not True or rec.exc is not None:
+                    w.violate("C02.put_accepted", f"third transfer ret={rec.ret} exc={rec.exc!r} (handler idle, EOF of the second not fetched yet)", "")
+            a.nodrain = False
+            w.call(a, "src", "fetch")  # now the user fetches what is ready (the EOF PDU of the second transfer), then goes on polling
+            break
+        if h.state.name == "IDLE":
+            break
+    if not eager:
+        a.nodrain = False
+        return
+    w.probe("C02.eager_user_back_to_back")
+    w.polls_stopped = False
+    w.start_polls()
+    w.max_events += w.nev + 3000
+    reason = w.run()
+    tag = "eager user: put request before the EOF of the previous transfer was fetched"
+    if reason != "quiet" or not w.all_idle():
+        w.violate("C02.completes", f"{tag}; src={h.step.name} dst={w.b.handlers['dst'].step.name}", f"run ended by {reason}")
+    lib = {k: v - base_lib.get(k, 0) for k, v in w.lib_excs.items() if v - base_lib.get(k, 0) > 0}
+    if w.internal_errors[base_int:]:
+        e = w.internal_errors[base_int]
+        w.violate("C02.no_exception", f"{e.cls}@{e.func} ({tag})", e.msg)
+    elif lib:
+        w.violate("C02.no_exception", "lib:" + ",".join(sorted(lib)) + f" ({tag})", "")
+    for name in ("dst/second.bin", "dst/third.bin"):
+        got = w.vfs_a.h_get(name)
+        if got != w.src_bytes:
+            w.violate("C02.file_equal", f"{name} got={'none' if got is None else len(got)} want={len(w.src_bytes)} ({tag})", "")
+    if cfg.ind_b & 8:
+        ok = [i for i in w.ind_log[base_ind:] if i[0] == "b" and i[1][0] == "finished" and i[1][2][:2] == (0, 0)]
+        if len(ok) != 2:
+            w.violate("C02.one_finished_receiver", f"n={len(ok)} for two transfers ({tag})", "")
 
 
 def judge(w: World, reason: str, base_ind: int = 0, base_fault: int = 0, base_lib=None, base_internal: int = 0) -> None:
